@@ -22,7 +22,7 @@ OPTIONS = {"quick": {"max_paths": 20000, "unit_budget_s": 600}, "thorough": {"ma
 ACTIONS = ["c_bind", "c_search", "c_ext", "c_unbind", "s_final", "s_entry", "s_unbind", "s_notice", "d_cs_all", "d_cs_1", "d_cs_half", "d_sc_all", "d_sc_1", "d_sc_half"]
 BOUNDS = {
     "quick": {"schedules": "every sequence of 3 actions out of 14, plus every sequence of 5 over the 6 'whole delivery' actions, plus 12 scripted scenarios of 6..10 actions (SASL multi-step bind, search with entries and done, pipelined requests, unbind mid-flight, byte-by-byte delivery)", "contents": "result codes 0..80 symbolic, one symbolic payload octet per request"},
-    "thorough": {"schedules": "every sequence of 4 actions out of 14; every sequence of 6 over the 6 whole-delivery actions; scripted scenarios"},
+    "thorough": {"schedules": "every sequence of 4 actions out of 14; every sequence of 7 over the 6 whole-delivery actions; scripted scenarios"},
 }
 OUTSIDE = ["schedules longer than the bounds that are not scripted", "the one-step joint induction sketched in DESIGN.md was not built: the claim is the BMC bound"]
 ASSUMPTIONS = ["applications only make calls their session accepts and answer with the matching kind (premise of the property)", "byte-level re-chunking beyond all/1/half is covered by C02's lemma"]
@@ -57,7 +57,7 @@ def units(tier):
     k = 3 if tier == "quick" else 4
     for seq in itertools.product(ACTIONS, repeat=k):
         us.append({"name": "bmc_" + "+".join(seq), "shape": {"acts": list(seq)}})
-    k2 = 5 if tier == "quick" else 6
+    k2 = 5 if tier == "quick" else 7
     for seq in itertools.product(WHOLE, repeat=k2):
         if seq[0].startswith(("s_", "d_")):
             continue
